@@ -38,8 +38,9 @@ NOTE = ("consensus engine simulated at the ABCI boundary per Tendermint 0.34; hi
 
 
 MC = (" Design level: RigoCore.tla (the application as a function of its state) is model-checked in its consensus environment "
-      "(MC_Rigo.tla; bounded configurations MC_Value / MC_Stake / MC_Gov) with the invariant that no clause of any property is violated by any step; "
-      "the judging operators are the same ones that judge the recorded traces.")
+      "(MC_Rigo.tla; bounded configurations MC_Value / MC_Stake / MC_Limiter / MC_Gov / MC_Restart) with the invariant that no clause of any property is "
+      "violated by any step; the judging operators are the same ones that judge the recorded traces. Binding of the model to the code: every recorded "
+      "call is also executed by RigoCore.tla and compared field by field (RigoConf.tla; differences are printed as CONFORMANCE-DIFF, never a verdict).")
 
 
 def app(text, ref, level="model_checking"):
